@@ -38,13 +38,23 @@ def enumWF (e : Xml) : Bool :=
 def declaredTypeNames (roots : List Xml) : List String :=
   (roots.map (fun r => ((r.findall "enum") ++ (r.findall "struct")).filterMap (fun e => e.get "name"))).flatten
 
+/-- the element's own `name` attribute contains a `':'`.  An enum whose own name contains `':'` is resolved
+    by the generator as an underlying-type override of ANOTHER enum (the part before the colon), so its
+    own `type` attribute and its own values' ordinals are never read.  Counterexample to the unguarded
+    rule: `<enum name="A" type="char">…</enum>` + `<enum name="A:char" type="string"/>` is accepted. -/
+def nameHasColon (e : Xml) : Bool :=
+  match e.get "name" with
+  | some n => PyStr.splitColon n != [n]
+  | none => false
+
 /-- a forest's type declarations: every file root is `<protocol>`, every enum / struct has a name, no type
-    name is declared twice (across all files), and every enum declaration is well-formed -/
+    name is declared twice (across all files), and every enum declaration whose name has no `':'` is
+    well-formed (see `nameHasColon` for why the others are exempt) -/
 def declsWF (roots : List Xml) : Bool :=
   roots.all (fun r => r.tag == "protocol") &&
   roots.all (fun r => ((r.findall "enum") ++ (r.findall "struct")).all (fun e => (e.get "name").isSome)) &&
   decide ((declaredTypeNames roots).Nodup) &&
-  roots.all (fun r => (r.findall "enum").all enumWF)
+  roots.all (fun r => (r.findall "enum").all (fun e => nameHasColon e || enumWF e))
 
 /-- a `<packet>` of a file in directory `dir`: only under `net/client` or `net/server`, with family and
     action attributes naming members of the `PacketFamily` / `PacketAction` enums, and no other packet
